@@ -6,6 +6,11 @@ repeat earlier ones."""
 import json, sys
 
 THEMES = {
+    "6": [
+        "SIZE / COUNT THRESHOLD OR EXACT MULTIPLE: the behaviour differs only beyond an internal threshold or exactly on a boundary that small default examples never reach: a count that needs two digits or exceeds 127 / 255 / 32767 / 2**24 / 2**31, more items than an internal chunk / batch / buffer size, a length that is an exact multiple (or exactly one more than a multiple) of a block size, the last index of an axis, an index exactly equal to the length, the second (not the first) repetition of a loop, more than one slice / mode / frame / group when one is the default.",
+        "SIGN / QUADRANT / ORIENTATION ASYMMETRY: the change is invisible on symmetric, square, positive, ascending or axis-aligned inputs and shows only for negative values, descending or reversed coordinates, angles in one particular quadrant or beyond 180 degrees, H > W versus H < W, row/column roles exchanged, negative steps / origins / shifts, values on the other side of a branch cut or wrap-around, the second of two axes treated like the first.",
+        "A PERFORMANCE SHORTCUT THAT IS RIGHT FOR ONE OBJECT USED ONCE: introduce (or widen) a cache, memo, lazily computed attribute, reused scratch buffer, avoided copy or early-exit fast path that is correct for a single object used once with fixed parameters, and wrong when two objects or two configurations are alive at the same time, when a parameter or an input array is changed between calls, when the same call is repeated, or when the fast path's guard is slightly too wide (it also fires for an input that needed the slow path).",
+    ],
     "5": [
         "EXCEPTION SAFETY / REJECTED CALL: the defect only shows after a call on the object (or into the module) has raised or been rejected part-way (invalid argument, failing validation, an exception thrown by a callee, an interrupted loop) and the caller then carries on with perfectly valid calls; with no failed call in the history everything is identical to the clean tree.",
         "LANGUAGE / LIBRARY SEMANTIC TRAP AT A DEGENERATE INPUT: a refactor that looks equivalent but differs through Python / NumPy / torch semantics (truthiness of 0 / empty / None, `is` vs `==`, shallow vs deep copy, view vs copy, integer vs true division, negative modulo or negative index, round-half-to-even, dtype promotion or silent down-cast, broadcasting of a length-1 axis, sort stability, dict / set ordering) and is visible only at a degenerate or boundary input: an axis of length 1 or 2, a prime or odd length, an empty selection, duplicated or unsorted indices, exactly tied values, negative zero, NaN / inf, a value exactly on a threshold.",
